@@ -670,7 +670,7 @@ where
         validate_ratios(resample_ratio, max_resample_ratio_relative)?;
 
         let needed_input_size =
-            (chunk_size as f64 / resample_ratio).ceil() as usize + interpolator.len() / 2;
+            (chunk_size as f64 / resample_ratio).ceil() as usize + (interpolator.len() + 1) / 2;
         let buffer_channel_length = ((max_resample_ratio_relative + 1.0) * needed_input_size as f64)
             as usize
             + 2 * interpolator.len();
@@ -888,7 +888,7 @@ where
         (self.max_chunk_size as f64 / self.resample_ratio_original * self.max_relative_ratio).ceil()
             as usize
             + 2
-            + self.interpolator.len() / 2
+            + (self.interpolator.len() + 1) / 2
     }
 
     fn input_frames_next(&self) -> usize {
@@ -956,7 +956,7 @@ where
         self.last_index = -((self.interpolator.len() / 2) as f64);
         self.chunk_size = self.max_chunk_size;
         self.needed_input_size = (self.chunk_size as f64 / self.resample_ratio).ceil() as usize
-            + self.interpolator.len() / 2;
+            + (self.interpolator.len() + 1) / 2;
         self.current_buffer_fill = self.needed_input_size;
         self.channel_mask.iter_mut().for_each(|val| *val = true);
     }
